@@ -1109,8 +1109,17 @@ def eval3(e: ast.AST, atom) -> Optional[bool]:
 
 def known_null_call(ctx: Ctx, f: FunctionInfo, n: Node, attr: str) -> bool:
     """On arrival at n, is the result of a `<x>.attr(...)` call known to be None (tested directly or through a variable)?"""
-    return any(pol == "null" and isinstance(e, ast.Call) and isinstance(e.func, ast.Attribute) and e.func.attr == attr
-               for pol, e, _at in facts_at(ctx, f, n))
+    g = ctx.cfg(f)
+
+    def is_attr_call(e: ast.AST, depth: int = 0) -> bool:
+        if isinstance(e, ast.Call) and isinstance(e.func, ast.Attribute) and e.func.attr == attr:
+            return True
+        # a helper / new property analysed in place that hands the call's result on (`return self.metadata_manager.refresh()`)
+        if isinstance(e, ast.Call) and id(e) in g.inline_returns and depth < 3:
+            outs = g.inline_returns[id(e)]
+            return bool(outs) and all(x is not None and is_attr_call(x, depth + 1) for x, _n in outs)
+        return False
+    return any(pol == "null" and is_attr_call(e) for pol, e, _at in facts_at(ctx, f, n))
 
 
 def effective_test(ctx: Ctx, f: FunctionInfo, b: Node):
@@ -2568,10 +2577,12 @@ def is_canonical_base_call(ctx: Ctx, f: FunctionInfo, x: ast.AST) -> bool:
             and isinstance(e.args[0], ast.Attribute) and e.args[0].attr == "base_path"
     if realpath_of_base(x):
         return True
-    try:
-        cal = ctx.prog.resolve_call(x, f)
-    except Exception:
-        return False
+    cal = next((n_.callee for n_ in ctx.cfg(f).calls() if n_.ast is x and n_.callee is not None), None)  # (resolved in the helper's own context)
+    if cal is None:
+        try:
+            cal = ctx.prog.resolve_call(x, f)
+        except Exception:
+            return False
     if cal is None or cal.kind != "func" or not cal.funcs:
         return False
     for t in cal.funcs:
@@ -2585,3 +2596,76 @@ def is_canonical_base_call(ctx: Ctx, f: FunctionInfo, x: ast.AST) -> bool:
             if not srcs or not all(realpath_of_base(src) for src, _at in srcs):
                 return False
     return True
+
+
+def loop_early_exits(g: CFG, lp: Node) -> List[Tuple[int, int]]:
+    """Normal edges that leave the body of loop `lp` other than through the loop head (break / return / the end of a helper
+    analysed in place): [(from node, to node)].  Raising edges are not exits of this kind."""
+    inside = {n.id for n in g.nodes if any(fr.kind == "loop" and fr.node is lp.ast for fr in n.frames)}
+    out = []
+    for nid in inside:
+        if nid not in g.reachable():
+            continue
+        for d, l in g.succ[nid]:
+            if l not in NORMAL:
+                continue
+            t, hops = d, 0
+            while g.nodes[t].kind == "join" and hops < 8:  # (join nodes carry no frames of their own)
+                nx = [x for x, l2 in g.succ[t] if l2 in NORMAL]
+                if len(nx) != 1:
+                    break
+                t, hops = nx[0], hops + 1
+            if t not in inside and t != lp.id:
+                out.append((nid, d))
+    return out
+
+
+def no_shared_mutable_class_state(ctx: Ctx, rid: str, why: str) -> None:
+    """Shared by every property whose values are accumulated per object: a dict / list / set created ONCE in a class body and
+    then filled through `self.<name>[k] = v` / `self.<name>.append(..)` is one object shared by all instances - what one file /
+    transaction / snapshot records is seen by the next.  (A class-level collection that is never mutated through an instance,
+    or that every constructor re-binds, is a constant / a default.)"""
+    ctx.rule(rid, "no per-object state lives in a class-level mutable: a dict / list / set display in a class body that methods "
+             "fill through `self` is shared by all instances - " + why, 1)
+    MUT = ("append", "extend", "add", "update", "setdefault", "pop", "clear", "insert", "remove", "discard", "popitem")
+    n_cls = 0
+    anchor = None
+    for ci in sorted(ctx.prog.classes.values(), key=lambda c: c.qname):
+        n_cls += 1
+        node = getattr(ci, "node", None)
+        if node is None:
+            continue
+        for st in node.body:
+            tgt = st.targets[0] if isinstance(st, ast.Assign) and len(st.targets) == 1 else (st.target if isinstance(st, ast.AnnAssign) else None)
+            val = getattr(st, "value", None)
+            if not isinstance(tgt, ast.Name) or val is None:
+                continue
+            mutable = isinstance(val, (ast.Dict, ast.List, ast.Set, ast.DictComp, ast.ListComp, ast.SetComp)) or (
+                isinstance(val, ast.Call) and isinstance(val.func, ast.Name) and val.func.id in ("dict", "list", "set", "defaultdict", "OrderedDict", "deque"))
+            if not mutable:
+                continue
+            name = tgt.id
+            muts, rebinds = [], []
+            for m in ci.methods.values():
+                sn = m.self_name()
+                if not sn:
+                    continue
+                for x in ast.walk(m.node):
+                    if isinstance(x, ast.Subscript) and isinstance(x.ctx, (ast.Store, ast.Del)) and isinstance(x.value, ast.Attribute) \
+                            and x.value.attr == name and isinstance(x.value.value, ast.Name) and x.value.value.id == sn:
+                        muts.append((m, x))
+                    if isinstance(x, ast.Call) and isinstance(x.func, ast.Attribute) and x.func.attr in MUT and isinstance(x.func.value, ast.Attribute) \
+                            and x.func.value.attr == name and isinstance(x.func.value.value, ast.Name) and x.func.value.value.id == sn:
+                        muts.append((m, x))
+                    if isinstance(x, ast.Attribute) and isinstance(x.ctx, ast.Store) and x.attr == name and isinstance(x.value, ast.Name) \
+                            and x.value.id == sn and m.name in ("__init__", "__post_init__", "__new__"):
+                        rebinds.append(m)
+            if muts and not rebinds:
+                m0, x0 = muts[0]
+                anchor = anchor or m0
+                ctx.ob(rid, m0, f"{ci.name}.{name} is per-instance state", None, False,
+                       f"`{name} = {norm_text(val)[:20]}` in the body of class {ci.name} is ONE object; `{norm_text(x0)[:50]}` "
+                       f"({m0.file}:{getattr(x0, 'lineno', m0.lineno)}) fills it through self, so every instance sees (and returns) what the "
+                       "previous ones recorded", text=f"{ci.name}.{name}", line=getattr(x0, "lineno", None))
+    any_fn = next(iter(sorted(ctx.prog.functions.values(), key=lambda x: x.qname)))
+    ctx.ob(rid, any_fn, "classes examined", None, n_cls >= 10, f"{n_cls} classes", nontrivial=False, text="classes")
